@@ -37,3 +37,34 @@ package orchestrator
 //verif:ensures e != nil
 //verif:func immutableProvisionedByConfigErr(msg) (e)
 //verif:ensures e != nil
+
+// ---- ConnectorOrchestrator.Update / Delete -------------------------------------------
+// Update: only API-provisioned connectors of a stopped pipeline, after validation; the
+// undo registered for the update re-applies the plugin AND the config the connector had
+// before it (the instance is updated in place, so both are captured beforehand).
+//verif:func (*ConnectorOrchestrator).Update(c, ctx, id, plugin, config) (conn, err)
+//verif:call[only-api-provisioned-and-stopped] ConnectorService.Update requires txnOpen() && succeeded("ConnectorService.Get") && result_of("ConnectorService.Get", 0).ProvisionedBy == ProvisionTypeAPI && succeeded("PipelineService.Get") && result_of("pipeline.(*Instance).GetStatus", 0) != StatusRunning && succeeded("(*ConnectorOrchestrator).Validate") && arg1 == id && arg2 == plugin && arg3 == config && oldPlugin == result_of("ConnectorService.Get", 0).Plugin && oldConfig == result_of("ConnectorService.Get", 0).Config
+//verif:call[commit-after-update-with-undo] Transaction.Commit requires succeeded("ConnectorService.Update") && count("rollback.(*R).Append") == 1
+//verif:call[skip-rollback-only-after-commit] rollback.(*R).Skip requires succeeded("Transaction.Commit")
+//verif:ensures[success-means-committed] err == nil ==> succeeded("Transaction.Commit") && called("rollback.(*R).Skip")
+//verif:ensures[failure-keeps-rollback-armed] err != nil ==> !called("rollback.(*R).Skip")
+
+//verif:closure of (*ConnectorOrchestrator).Update calling ConnectorService.Update (err, c, ctx, id, oldPlugin, oldConfig) (rerr)
+//verif:call[undo-restores-previous-plugin-and-config] ConnectorService.Update requires arg1 == deref(id) && arg2 == deref(oldPlugin) && arg3 == deref(oldConfig)
+
+// Delete: only API-provisioned connectors without processors, of a stopped pipeline; the
+// connector is deleted, then its reference is removed, each with its undo registered,
+// and only then the transaction is committed.
+//verif:func (*ConnectorOrchestrator).Delete(c, ctx, id) (err)
+//verif:call[only-api-provisioned-unreferenced-and-stopped] ConnectorService.Delete requires txnOpen() && succeeded("ConnectorService.Get") && conn.ProvisionedBy == ProvisionTypeAPI && len(conn.ProcessorIDs) == 0 && succeeded("PipelineService.Get") && result_of("pipeline.(*Instance).GetStatus", 0) != StatusRunning && arg1 == id
+//verif:call[reference-removed-after-delete-with-undo-registered] PipelineService.RemoveConnector requires txnOpen() && succeeded("ConnectorService.Delete") && count("rollback.(*R).Append") == 1 && arg1 == pl.ID && arg2 == id
+//verif:call[commit-after-both-steps-with-both-undos] Transaction.Commit requires succeeded("ConnectorService.Delete") && succeeded("PipelineService.RemoveConnector") && count("rollback.(*R).Append") == 2
+//verif:call[skip-rollback-only-after-commit] rollback.(*R).Skip requires succeeded("Transaction.Commit")
+//verif:ensures[success-means-committed] err == nil ==> succeeded("Transaction.Commit") && called("rollback.(*R).Skip")
+//verif:ensures[failure-keeps-rollback-armed] err != nil ==> !called("rollback.(*R).Skip")
+
+//verif:closure of (*ConnectorOrchestrator).Delete calling ConnectorService.Create (err, c, ctx, id, conn) (rerr)
+//verif:call[undo-recreates-the-deleted-connector] ConnectorService.Create requires arg1 == deref(id) && arg2 == deref(conn).Type && arg3 == deref(conn).Plugin && arg4 == deref(conn).PipelineID && arg5 == deref(conn).Config && arg6 == deref(conn).ProvisionedBy
+
+//verif:closure of (*ConnectorOrchestrator).Delete calling PipelineService.AddConnector (c, ctx, pl, id) (rerr)
+//verif:call[undo-restores-the-reference] PipelineService.AddConnector requires arg1 == deref(pl).ID && arg2 == deref(id)
